@@ -588,6 +588,61 @@ def job_mechanics(job) -> list:
     return out
 
 
+
+# ---- the registry next to the parse cache (core._REBOUND_NAMES) vs AuxStateModel (weak design)
+
+
+def reg_source(ident: int, binder: bool) -> str:
+    return (f"def f{ident}(len):\n    return len('abc')\n" if binder else f"x{ident} = len('abc')\n")
+
+
+def job_registry(job) -> list:
+    """cases: (cap, binder ids, history of source ids).  Observation per call: does the evaluator take the builtin
+    call of the parsed tree for a call of the builtin (core.is_made_of_literals on the Call node)."""
+    core = MODS["core"]
+    real_cap = core.parse.cache_parameters()["maxsize"]
+    out = []
+    for (cap, binders, h) in job["cases"]:
+        if cap == real_cap:
+            core.parse.cache_clear()
+            f = core.parse
+        else:
+            f = functools.lru_cache(maxsize=cap)(core.parse.__wrapped__)
+        seen = []
+        for ident in h:
+            tree = f(reg_source(ident, ident in binders))
+            call = next(n for n in ast.walk(tree) if isinstance(n, ast.Call))
+            seen.append(bool(core.is_made_of_literals(call)))
+        del tree, call
+        if f is not core.parse:
+            f.cache_clear()
+        out.append(seen)
+    core.parse.cache_clear()
+    return out
+
+
+def registry_cases(real_cap):
+    cases = []
+    for cap in (1, 2):
+        for binders in ((0,), (0, 1), ()):
+            for n in range(1, 5):
+                for h in itertools.product(range(4), repeat=n):
+                    cases.append((cap, binders, list(h)))
+    for binders in ((0,), (0, 50, 99), tuple(range(0, 120, 2))):
+        n = real_cap + 20
+        cases.append((real_cap, binders, list(range(n)) + list(range(n))))
+        cases.append((real_cap, binders, list(range(n)) + [0, 1, 0] + list(range(n, n + 30))))
+    return cases
+
+
+def write_reg_file(path: Path, items):
+    body = ";\n ".join(f"(mkRCase {c[0]} {glist(list(c[1]), str)} {glist(c[2], str)} {glist(r, gbool)})" for c, r in items)
+    path.write_text("From Coq Require Import List Arith Bool.\nImport ListNotations.\n"
+                    "Require Import Pyrefact.Base Pyrefact.CacheModel Pyrefact.AuxStateModel.\n"
+                    f"Definition cases : list reg_case := [\n {body}\n].\n"
+                    "Eval vm_compute in (bad_idx reg_case_ok cases).\n")
+
+
 def job_harvest(job):
     """The harvest runs the repo's example scripts; in a fork with a time limit, so that a rule that hangs on its own
     example cannot hang the check."""
@@ -602,7 +657,7 @@ def harvest_isolated(farm, timeout=150):
     return rest[0]
 
 
-JOBS = {"history": job_history, "mechanics": job_mechanics, "harvest": job_harvest}      # other harness modules may register job kinds
+JOBS = {"history": job_history, "mechanics": job_mechanics, "harvest": job_harvest, "registry": job_registry}      # other harness modules may register job kinds
 
 
 def run_job(job):
@@ -1146,6 +1201,33 @@ def _check(run, wd, mods, core, farm, t_start):
                        if any(not m for m in misses) and any(o[0] == "M" for call in c[3] for o in call)}
     timing["mechanics_s"] = round(time.time() - t0, 1)
 
+    # ---- 1b. the registry keyed by node identity (core._REBOUND_NAMES) vs AuxStateModel, WeakSet design
+    t0 = time.time()
+    rcases = registry_cases(real_cap)
+    rchunks = [rcases[i:i + CH] for i in range(0, len(rcases), CH)]
+    rres = farm.map([{"kind": "registry", "cases": ch} for ch in rchunks])
+    reg_items, reg_err, reg_dis = [], [], []
+    for ch, (st, *rest) in zip(rchunks, rres):
+        if st != "ok":
+            reg_err.append(rest[0])
+            continue
+        reg_items += list(zip(ch, rest[0]))
+    rfiles, rshards = [], []
+    for k in range(0, len(reg_items), CH):
+        p = wd / f"reg_{k // CH}.v"
+        write_reg_file(p, reg_items[k:k + CH])
+        rfiles.append(p)
+        rshards.append(reg_items[k:k + CH])
+    rcres = run_case_files_retry(rfiles)
+    for p, shard in zip(rfiles, rshards):
+        rc, out = rcres[p]
+        idx = common.parse_nat_list(out) if rc == 0 else None
+        if idx is None:
+            reg_err.append(f"{p.name}: {out[-800:]}")
+            continue
+        reg_dis += [shard[i] for i in idx]
+    timing["registry_s"] = round(time.time() - t0, 1)
+
     # ---- 2. the premise of T05.1 on the real rules
     t0 = time.time()
     pool, hstats = harvest_isolated(farm)
@@ -1345,6 +1427,17 @@ def _check(run, wd, mods, core, farm, t_start):
                            "impl_seen": r[0], "impl_misses": r[1], "model": model_mech_output(wd, c),
                            "explanation": "the real cache objects behave differently from the model on this "
                                           "synthetic rule history; the history sweep found no failing input"}, False)
+        for c, r in reg_dis[:3]:
+            run.violation({"kind": "correspondence", "kernel": "K8b AuxStateModel.aobserve (WeakSet design) vs core.parse + "
+                                                               "core._REBOUND_NAMES + core.is_made_of_literals",
+                           "case": {"cap": c[0], "binder_ids": list(c[1]), "history": c[2]}, "impl_seen": r,
+                           "sources": {"binder": reg_source(0, True), "other": reg_source(1, False)},
+                           "explanation": "along this history of parses the evaluator's verdict on the builtin call (folded "
+                                          "or not) differs from the model, where it is `not binds(source)` whatever was "
+                                          "parsed before (T05.4)"}, False)
+        for e in reg_err[:2]:
+            run.violation({"kind": "correspondence", "kernel": "K8b", "error": e,
+                           "explanation": "the registry correspondence could not be evaluated"}, False)
         for e in mech_err[:2]:
             run.violation({"kind": "correspondence", "kernel": "K8", "error": e,
                            "explanation": "the cache mechanics correspondence could not be evaluated"}, False)
@@ -1363,7 +1456,7 @@ def _check(run, wd, mods, core, farm, t_start):
     timing["total_s"] = round(time.time() - t_start, 1)
     n_rules = len({r[0] for r in pool})
     run.coverage.update(
-        evaluations=len(mech_items) + 2 * len(sweep_ops) + n_calls,
+        evaluations=len(mech_items) + len(reg_items) + 2 * len(sweep_ops) + n_calls,
         distinct_nontrivial=len(mech_nontrivial) + len(distinct_hist),
         rule=("mechanics: synthetic rule histories (Get/Mut on tagged keys, unparsable keys) against the real "
               "core.parse object (capacity 100) and functools.lru_cache at capacities 1,2,3,5 -- exhaustive over all "
@@ -1388,7 +1481,8 @@ def _check(run, wd, mods, core, farm, t_start):
                      "violations": len(state_bad) + len(static_bad)},
         probe_histories={lab: {"calls": len(ops), "probes": len(ops) - n0} for lab, ops, n0 in phs},
         probes_whose_fresh_result_is_a_rewrite=probes_folded,
-        correspondence_disagreements=len(mech_dis) + len(mech_err), property_oracle_failures=len(failures),
+        registry_cases=len(reg_items),
+        correspondence_disagreements=len(mech_dis) + len(mech_err) + len(reg_dis) + len(reg_err), property_oracle_failures=len(failures),
         unmodelled=["core._group_nodes_in_scope (keyed by node identity; stale exactly when the parse tree was "
                     "mutated)", "core.is_valid_python / _get_line_start_charnos / _make_match_type (immutable results)",
                     "module-level state of pyrefact outside the lru caches: enumerated and digested by the state audit "
